@@ -189,6 +189,10 @@ def check_bonds(prog: Program, res: Result) -> None:
                 return r
             if t in ("product_graph.has_bond(*bond)", "bond in product_graph.bonds"):
                 return p
+            if t == "bond not in reactant_graph.bonds":
+                return not r
+            if t == "bond not in product_graph.bonds":
+                return not p
             return None
         pe = PE(as_func(loops[0].body), {}, oracle=oracle)
         outs = pe.run()
